@@ -132,3 +132,28 @@ def run_gated(prop, cex, test="replay_gated", timeout_s=900):
         if oc is None:
             return None, path, "gated replay did not run:\n" + out[-2500:]
         return (oc == "failed"), path, "\n".join(l for l in out.splitlines() if "GATED-REPLAY" in l or "panicked" in l)[-1500:] or out[-1500:]
+
+
+def fault_spec(steps):
+    """(kind 'op:class', 1-based ordinal among the steps of that kind) of the first failed call of a T.short step list"""
+    for i, sstep in enumerate(steps):
+        parts = sstep.split(":")
+        if len(parts) >= 3 and parts[1] == "err":
+            kind = f"{parts[0]}:{parts[2]}"
+            nth = sum(1 for x in steps[:i + 1] if x.split(":")[0] == parts[0] and x.split(":")[-1] == parts[2] and len(x.split(":")) >= 3)
+            return kind, nth
+    return None, 0
+
+
+SUPPORTED_FAULTS = {"write", "sync", "rename", "unlink", "open"}
+
+
+def run_faultplan(prop, cex, timeout_s=900):
+    """sequential history with one injected failure, replayed through the public API -> (True/False/None, path, text)"""
+    kind, nth = fault_spec(cex.get("steps", []))
+    if kind is None or kind.split(":")[0] not in SUPPORTED_FAULTS or kind.split(":")[1] in ("", "parent-of", "?"):
+        path = vlib.write_replay(prop, {"property": prop, "values": cex})
+        return None, path, f"no native injection for a failure of `{kind}`"
+    vals = dict(cex, fault_kind=kind, fault_nth=nth)
+    vals.setdefault("num_ops_per_wal", int(cex.get("N", 10000) or 10000))
+    return run_gated(prop, vals, test="replay_faultplan", timeout_s=timeout_s)
